@@ -137,7 +137,7 @@ impl NaRec {
             dev.calls[k] = (self.id as u8, query);
         }
         dev.n_calls += 1;
-        static EMPTY: UnitPlan = UnitPlan { pulls: Vec::new(), greedy: true, headers: Vec::new(), respond: Vec::new(), fail: None };
+        static EMPTY: UnitPlan = UnitPlan { pulls: Vec::new(), greedy: true, headers: Vec::new(), respond: Vec::new(), fail: None, swallow: false };
         let plan: &'static UnitPlan = dev.plan.get(k).unwrap_or(&EMPTY);
         for p in plan.pulls.iter() {
             match p.as_ {
@@ -188,6 +188,13 @@ impl NaRec {
                     RespDatum::Block(s) => resp.data(Arbitrary(&s[..])),
                     RespDatum::Chr(s) => resp.data(Character(&s[..])),
                     RespDatum::Expr(s) => resp.data(Expression(&s[..])),
+                    RespDatum::BigBlock(n) => resp.data(Arbitrary(crate::rec::big_block(*n))),
+                    RespDatum::ManyU8(n) => {
+                        for i in 0..*n {
+                            resp.data((i % 251) as u8);
+                        }
+                        &mut resp
+                    }
                 };
             }
             return resp.finish();
